@@ -43,6 +43,9 @@ def fraction_divide(n1, n2):
 def simplify_number(x):
     if isinstance(x, float):
         fraction, whole = math.modf(x)
+        if fraction != fraction:
+            # NaN: an overflowed result, like the infinity int() rejects below.
+            raise OverflowError("numerical result is not a number")
         if fraction == 0:
             # Go straight to integers. Converting floats
             # to rationals results in ugly-looking fractions
